@@ -111,10 +111,16 @@ func (p *Provider) runFullScan(ctx context.Context) error {
 		if err != nil {
 			if errors.Is(err, decoders.ErrAmmoLimit) || errors.Is(err, decoders.ErrPassLimit) {
 				err = nil
+				if delivered == 0 {
+					err = decoders.ErrNoAmmo // ChosenCases matched nothing in all passes
+				}
 			}
 			return err
 		}
 		if !confutil.IsChosenCase(ammo.Tag(), p.Config.ChosenCases) {
+			if delivered == 0 && p.fullPassDone() {
+				return decoders.ErrNoAmmo // ChosenCases matched nothing in a whole pass: same end as with preload
+			}
 			continue
 		}
 
@@ -129,6 +135,12 @@ func (p *Provider) runFullScan(ctx context.Context) error {
 			delivered++
 		}
 	}
+}
+
+// fullPassDone reports whether the decoder has been through the whole ammo file at least once.
+func (p *Provider) fullPassDone() bool {
+	d, ok := p.Decoder.(interface{ PassNum() uint })
+	return ok && d.PassNum() >= 1
 }
 
 func (p *Provider) loadAmmo(ctx context.Context) error {
